@@ -31,6 +31,8 @@ def one(rec, hub, seed, tier, i):
     cfg = dsm.make_config(fd, rng, tier, model=model)
     cfg["inflow_at"] = ["start", "middle", "end"][(i // 5) % 3]
     cfg["n_pts"] = 1 if (i // 15) % 2 == 0 else 1 + (i // 30) % 10
+    if i % 7 == 3:
+        cfg["param_form"] = "ndarray" if (i // 7) % 2 else "list"
     lm = dsm.build_lm(fd, cfg)
     sf = np.asarray(lm.sf)
     pdf = np.asarray(lm.pdf)
